@@ -81,7 +81,18 @@ var hostFuncNames = []string{"h_refl", "h_ctx", "h_none", "h_gomod", "h_go"}
 
 const peekName = "peek" // guest-view digest of everything; NOT a letter: called once per instance after every word
 
-func guestModule(variant int) []byte {
+// Module shapes (the set of segment kinds a module has is a dimension of its own: per-module caches may be guarded
+// by a shape condition such as "no passive data segment"):
+//
+//	1  active + passive data segments, active + passive element segments (the default)
+//	2  ONLY ACTIVE data segments (segment 1 is active at [208,224)) plus a data-count section; minit/ddrop address
+//	   the active segment 1 (wazero keeps active segments initialisable until they are dropped)
+//	3  ONLY ACTIVE element segments (segment 1 is active at table[2,4)); tinit/edrop address it
+//	4  no data and no element segments at all: the exported _start function (run by InstantiateModule) stores the
+//	   same initial bytes, fA/fB are declared through exports, and minit/ddrop/tinit/edrop are empty letters
+const numShapes = 4
+
+func guestModule(variant, shape int) []byte {
 	m := &wb.Module{}
 	i32, i64 := wb.I32, wb.I64
 	w := "wasi_snapshot_preview1"
@@ -133,8 +144,13 @@ func guestModule(variant int) []byte {
 		I32Const(aCopy).I32Const(0).I32Const(16).MemoryCopy().
 		I64Const(0))
 	// minit / ddrop
-	def("minit", nil, (&wb.Asm{}).I32Const(aInit).I32Const(0).I32Const(16).MemoryInit(1).I64Const(0))
-	def("ddrop", nil, (&wb.Asm{}).DataDrop(1).I64Const(0))
+	if shape == 4 {
+		def("minit", nil, (&wb.Asm{}).I64Const(0))
+		def("ddrop", nil, (&wb.Asm{}).I64Const(0))
+	} else {
+		def("minit", nil, (&wb.Asm{}).I32Const(aInit).I32Const(0).I32Const(16).MemoryInit(1).I64Const(0))
+		def("ddrop", nil, (&wb.Asm{}).DataDrop(1).I64Const(0))
+	}
 	// gset
 	def("gset", []byte{i32}, ext((&wb.Asm{}).
 		GlobalGet(g0).LocalSet(0).
@@ -153,8 +169,13 @@ func guestModule(variant int) []byte {
 	// tgrow
 	def("tgrow", nil, (&wb.Asm{}).RefFunc(fA).I32Const(1).TableGrow(0).Op(0xac))
 	// tinit / edrop
-	def("tinit", nil, (&wb.Asm{}).I32Const(2).I32Const(0).I32Const(2).TableInit(1, 0).I64Const(0))
-	def("edrop", nil, (&wb.Asm{}).ElemDrop(1).I64Const(0))
+	if shape == 4 {
+		def("tinit", nil, (&wb.Asm{}).I64Const(0))
+		def("edrop", nil, (&wb.Asm{}).I64Const(0))
+	} else {
+		def("tinit", nil, (&wb.Asm{}).I32Const(2).I32Const(0).I32Const(2).TableInit(1, 0).I64Const(0))
+		def("edrop", nil, (&wb.Asm{}).ElemDrop(1).I64Const(0))
+	}
 	// write
 	def("write", nil, ext((&wb.Asm{}).
 		I32Const(1).I32Const(aIovW).I32Const(1).I32Const(aNWrit).Call(fdWrite).I32Const(16).Op(0x74).
@@ -272,10 +293,6 @@ func guestModule(variant int) []byte {
 		wb.Export{Name: "g1", Kind: wb.KindGlobal, Idx: g1},
 		wb.Export{Name: "table", Kind: wb.KindTable, Idx: 0},
 	)
-	m.Elems = []wb.Elem{
-		{Mode: 0, Offset: wb.CI32(0), Funcs: []uint32{fA}},
-		{Mode: 1, Funcs: []uint32{fB, fA}},
-	}
 	scratch := make([]byte, 80)
 	binary.LittleEndian.PutUint32(scratch[aIovW-128:], 0)
 	binary.LittleEndian.PutUint32(scratch[aIovW-128+4:], 16)
@@ -286,11 +303,39 @@ func guestModule(variant int) []byte {
 	pas := []byte("P0-passive-seg!!")
 	act[1] += byte(variant)
 	pas[1] += byte(variant)
-	m.DataCount = true
-	m.Datas = []wb.Data{
-		{Offset: wb.CI32(0), Bytes: act},
-		{Passive: true, Bytes: pas},
-		{Offset: wb.CI32(128), Bytes: scratch},
+	switch shape {
+	case 1, 2, 3:
+		m.Elems = []wb.Elem{
+			{Mode: 0, Offset: wb.CI32(0), Funcs: []uint32{fA}},
+			{Mode: 1, Funcs: []uint32{fB, fA}},
+		}
+		if shape == 3 {
+			m.Elems[1] = wb.Elem{Mode: 0, Offset: wb.CI32(2), Funcs: []uint32{fB, fA}}
+		}
+		m.DataCount = true
+		m.Datas = []wb.Data{
+			{Offset: wb.CI32(0), Bytes: act},
+			{Passive: true, Bytes: pas},
+			{Offset: wb.CI32(128), Bytes: scratch},
+		}
+		if shape == 2 {
+			m.Datas[1] = wb.Data{Offset: wb.CI32(208), Bytes: pas}
+		}
+	case 4:
+		// no segments: declare fA/fB through exports and initialise memory in _start
+		m.ExportFunc("fA", fA)
+		m.ExportFunc("fB", fB)
+		st := &wb.Asm{}
+		storeBytes := func(at int32, b []byte) {
+			for i := 0; i+8 <= len(b); i += 8 {
+				st.I32Const(at+int32(i)).I64Const(int64(binary.LittleEndian.Uint64(b[i:]))).Mem(0x37, 0, 0)
+			}
+		}
+		storeBytes(0, act)
+		storeBytes(128, scratch)
+		m.ExportFunc("_start", m.AddFunc(nil, nil, nil, st.B))
+	default:
+		panic("bad shape")
 	}
 	return m.Encode()
 }
